@@ -192,6 +192,10 @@ func Go(f func()) { GoNamed("", f) }
 func GoNamed(name string, f func()) {
 	s := Current()
 	if s == nil {
+		if Free() {
+			freeGo(f)
+			return
+		}
 		go f()
 		return
 	}
@@ -247,7 +251,13 @@ func PointTimed(name string, enabled func() bool, wakeAt func() time.Time) {
 }
 
 // WaitUntil parks the calling thread until pred holds (a harness gate).
-func WaitUntil(name string, pred func() bool) { Point("gate:"+name, pred) }
+func WaitUntil(name string, pred func() bool) {
+	if Free() {
+		freeWaitUntil(pred)
+		return
+	}
+	Point("gate:"+name, pred)
+}
 
 // Yield is a plain scheduling point.
 func Yield() { Point("yield", nil) }
@@ -410,6 +420,10 @@ func InTeardown() bool { s := Current(); return s != nil && s.teardown }
 
 // Logf appends an observation to the execution's log (a hooked object: order of observations is part of the state).
 func Logf(format string, a ...interface{}) {
+	if Free() {
+		freeLogf(format, a...)
+		return
+	}
 	if s := Current(); s != nil && !s.teardown {
 		msg := fmt.Sprintf(format, a...)
 		s.logObj.Touch(strHash(msg))
@@ -447,6 +461,13 @@ func Now() time.Time {
 // Sleep blocks the thread until the virtual clock has advanced by d (it advances only when nothing else can run).
 func Sleep(d time.Duration) {
 	s := Current()
+	if s == nil && Free() {
+		if d > 100*time.Millisecond {
+			d = 100 * time.Millisecond // free-running mode only runs scenarios without long idle periods
+		}
+		time.Sleep(d)
+		return
+	}
 	if s == nil || s.teardown {
 		return
 	}
